@@ -66,6 +66,18 @@ func c05Graph(r *rand.Rand) *lib.Graph {
 			}
 		}
 	}
+	if r.Intn(3) == 0 {
+		// two units whose fragment nodes are written alike ("#thing" under two different bases) and are different nodes
+		same := pick(r, "alpha", "x", "zeta")
+		for u := 1; u <= 2; u++ {
+			unit := g.AddNode(fmt.Sprintf("%sunit%d", lib.EX, u), lib.EX+"U")
+			th := g.AddNode(fmt.Sprintf("%sunit%d#thing", lib.EX, u), lib.EX+"T")
+			th.Add(lib.EX+"name", lib.StrV(same))
+			th.Add(lib.EX+"num", lib.IntV(7))
+			unit.Add(lib.EX+"child", lib.RefV(th.ID))
+			unit.Add(lib.EX+"name", lib.StrV("unit"))
+		}
+	}
 	return g
 }
 
@@ -199,6 +211,11 @@ func c05(tier string) {
 				text, ctxText = g.ContextByReference(ctxFile, mode)
 				_ = os.WriteFile(ctxFile, []byte(ctxText), 0o644)
 				applied = []string{"context-in-a-file(" + mode + ")", "prefix-compaction", "@graph-wrapper"}
+			}
+			if v%8 == 3 {
+				if t, ok := g.ScopedContexts(); ok {
+					text, applied = t, []string{"one-context-per-unit(@base)", "embedding", "relative-fragment-ids"}
+				}
 			}
 			flat, err := lib.FlattenCanon(text)
 			if err != nil || flat != canonFlat {
